@@ -197,13 +197,14 @@ impl Suite for Sched {
         let variants: &[(&str, bool)] = if tier == "thorough" {
             &[("fresh", false), ("fresh", true), ("restart", true), ("restart", false)]
         } else {
-            &[("fresh", false), ("fresh", true), ("restart", true)]
+            &[("fresh", true), ("restart", true)]
         };
         let f_inject: &[(&str, &[&str])] = &[
             ("plain", &["all", "count", "sorted"]),
             ("plain+ingest", &["all", "count", "sorted", "ingest"]),
             ("lackcol", &["lack"]),
             ("nosuchcol", &["nosuch"]),
+            ("evict", &["evict", "all", "sorted"]),
         ];
         let thorough = tier == "thorough";
         for (variant, compact) in variants {
@@ -219,7 +220,7 @@ impl Suite for Sched {
                     continue;
                 }
                 for (iname, inj) in f_inject {
-                    if !full && (*iname == "plain" || *iname == "nosuchcol") {
+                    if !full && (*iname == "plain" || *iname == "nosuchcol" || *iname == "evict") {
                         continue;
                     }
                     cases.push(Case {
@@ -266,7 +267,7 @@ impl Suite for Sched {
     }
 
     fn run(&self, input: &Sx) -> Vec<Outcome> {
-        run_child(input, Duration::from_secs(150))
+        run_child(input, Duration::from_secs(400))
     }
 }
 
@@ -296,7 +297,7 @@ impl Suite for Stress {
     }
 
     fn run(&self, input: &Sx) -> Vec<Outcome> {
-        run_child(input, Duration::from_secs(240))
+        run_child(input, Duration::from_secs(500))
     }
 }
 
